@@ -111,6 +111,50 @@ def check(case):
     return bad
 
 
+def engine_generator_case(case):
+    """which generator object the engine hands to the DP optimizer and to the Poisson sampler (secure mode uses a stand-in torchcsprng)"""
+    import sys, types
+    from torch.utils.data import DataLoader, TensorDataset
+    bad = []
+    made = []
+    if case['secure']:
+        fake = types.ModuleType('torchcsprng')
+
+        def create_random_device_generator(path=None):
+            g = torch.Generator()
+            made.append(g)
+            return g
+        fake.create_random_device_generator = create_random_device_generator
+        sys.modules['torchcsprng'] = fake
+    try:
+        from opacus import PrivacyEngine
+        eng = PrivacyEngine(secure_mode=case['secure'])
+        m = nn.Linear(3, 2)
+        opt = torch.optim.SGD(m.parameters(), lr=0.1)
+        dl = DataLoader(TensorDataset(torch.zeros(8, 3), torch.zeros(8, dtype=torch.long)), batch_size=2, shuffle=True)
+        user = torch.Generator().manual_seed(3) if case['user'] else None
+        try:
+            gm, o, d = eng.make_private(module=m, optimizer=opt, data_loader=dl, noise_multiplier=1.0, max_grad_norm=1.0, noise_generator=user,
+                                        poisson_sampling=case['poisson'])
+        except ValueError as e:
+            if not (case['secure'] and case['user']):
+                bad.append('make_private raised ValueError: %s' % str(e)[:100])
+            return bad
+        if case['secure'] and case['user']:
+            bad.append('a user generator was accepted in secure mode')
+            return bad
+        want = made[0] if case['secure'] else user
+        if o.generator is not want:
+            bad.append('optimizer.generator is %s, expected %s' % ('None' if o.generator is None else 'another generator', 'the secure generator' if case['secure'] else ('the user generator' if user is not None else 'None')))
+        if o.secure_mode != case['secure']:
+            bad.append('optimizer.secure_mode = %r' % o.secure_mode)
+        if case['secure'] and case['poisson'] and getattr(d.batch_sampler, 'generator', None) is not made[0]:
+            bad.append('the Poisson sampler does not draw from the secure generator')
+    finally:
+        sys.modules.pop('torchcsprng', None)
+    return bad
+
+
 def stat_case(case):
     """distribution of the RELEASED noise (a test, not a proof): 20k noise values of one step vs N(0, (sigma C)^2), and independence
     across steps / parameters through sample correlations"""
@@ -152,7 +196,7 @@ if __name__ == '__main__':
     out = []
     for c in p['cases']:
         try:
-            out.append({'bad': stat_case(c) if c.get('stat') else check(c), 'error': None})
+            out.append({'bad': engine_generator_case(c) if c.get('enggen') else (stat_case(c) if c.get('stat') else check(c)), 'error': None})
         except Exception as e:
             import traceback
             out.append({'bad': [], 'error': errname(e) + ' ' + traceback.format_exc()[-500:]})
